@@ -426,6 +426,12 @@ def run(F, chk):
               "table does not cover")
     chk.floor("R7.10", 600)
 
+    # ------------------------------------------------------------------ R7.11
+    chk.share(F, "c04", ["R4.3"], "R7.11",
+              "a reorder (every sorted save) moves the per-block header tables with the blocks, in every version that carries them: "
+              "a type index table left behind labels the written blocks with each other's types")
+    chk.floor("R7.11", 6)
+
     # ------------------------------------------------------------------ R7.9
     R9 = chk.rule("R7.9", "the place of the size table recorded while a header is written (NiHeader::blockSizePos, set by Put only for "
                           "the versions that have the table) never survives the save that recorded it: every NifFile function that "
